@@ -211,6 +211,37 @@ fn gen_url(r: &mut Rng) -> GenUrl {
         s.push_str(&gen_host(r));
         s.push_str(r.pick(PORTS));
         s.push_str(r.pick(TAILS));
+    } else if r.chance(1, 10) {
+        // very long components: lengths around the powers of two an offset type might wrap at
+        let total = r.pick(&[128usize, 255, 256, 257, 258, 260, 261]);
+        let base = r.pick(&["http", "https", "ws", "wss", "ftp", "x", "HTTP"]);
+        match r.below(3) {
+            0 => {
+                // scheme of `total` characters beginning like a known one
+                let fill = r.pick(&["x", "s", "-", "+", "1"]);
+                let mut sch = base.to_string();
+                while sch.len() < total { sch.push_str(fill); }
+                s.push_str(&sch);
+                s.push_str("://");
+                s.push_str(&gen_host(r));
+            }
+            1 => {
+                s.push_str(r.pick(&["http", "https", "ws"]));
+                s.push_str("://");
+                s.push_str(&"u".repeat(total));
+                s.push('@');
+                s.push_str(&gen_host(r));
+            }
+            _ => {
+                s.push_str(r.pick(&["http", "https", "wss"]));
+                s.push_str("://");
+                s.push_str(&"a".repeat(total));
+                s.push('.');
+                s.push_str(&gen_host(r));
+            }
+        }
+        s.push_str(r.pick(PORTS));
+        s.push_str(r.pick(TAILS));
     } else {
         s.push_str(r.pick(SCHEMES));
         s.push_str(r.pick(SEPS));
@@ -454,7 +485,7 @@ fn idna_entries(url: &str, out: &mut Vec<(String, Option<String>)>) {
     }
     for &a in &starts {
         for &b in &ends {
-            if a < b && b - a <= 96 {
+            if a < b && b - a <= 2000 {
                 let s = &t[a..b];
                 if !s.is_ascii() && !out.iter().any(|(k, _)| k == s) {
                     out.push((s.to_string(), idna::domain_to_ascii(s).ok()));
